@@ -218,6 +218,65 @@ theorem C19_default_names_path_safe (str repr : κ → List Nat) (hbytes : ∀ k
   refine ⟨⟨fun h => (key 47 h).1 rfl, by decide⟩, ⟨fun h => (key 92 h).2.1 rfl, by decide⟩,
     ⟨fun h => (key 0 h).2.2 rfl, by decide⟩⟩
 
+/-- WHAT A FILE THAT IS ALREADY THERE DOES (the shipped behaviour, not a promise of the property): `_load_or_run`
+trusts whatever is under the key's name.  A complete pickle is served as it is — whatever value it holds — without
+calling `fn`; a truncated one (which the shipped save can never leave behind, `C19_cut_step_consistent`, but the
+pinned version could, `C19_direct_save_not_crash_safe`) makes the run raise; in both cases the directory is left as
+it was: nothing is recomputed or repaired, also not by a rerun. -/
+theorem C19_existing_file_is_trusted (mode : SaveMode) (size : β → Nat) (fn : α → β) (fs : FS κ β) (k : κ) (v : α)
+    (cut : Option Nat) (w : β) (p : Nat) (h : fs (.final k) = .data w p) :
+    loadOrRun mode size fn fs k v cut = (fs, if size w ≤ p then .ret w false else .loadError) := by
+  simp only [loadOrRun, h]
+  split <;> rfl
+
+/-- generated-table obligation about the temporary sibling `_pickle_save` writes to: its constant suffix does not
+end in `.p`, and neither constant part holds a path separator -/
+theorem C19_tmp_naming_facts : tmpPartsOk Gen.tmpSep Gen.tmpSuffix = true := by decide
+
+/-- A TEMPORARY NAME IS NEVER A RESULT FILE'S NAME: whatever the keys and the process id, the temporary sibling of
+one key's file is not the result file of any key — an interrupted save can leave a stray file, never a file that a
+later run would take for a cached result.  (Both naming schemes; the model's `Path.tmp _ ≠ Path.final _`.) -/
+theorem C19_tmp_name_is_no_final_name (scheme : NameScheme) (str repr : κ → List Nat) (k k' : κ) (pid : Nat) :
+    tmpName Gen.tmpSep Gen.tmpSuffix (defaultName scheme str repr k) pid ≠ defaultName scheme str repr k' := by
+  intro h
+  have hl : ∀ (x : List Nat), (x ++ [46, 112]).reverse.take 2 = [112, 46] := by intro x; simp
+  have hf : (defaultName scheme str repr k').reverse.take 2 = [112, 46] := by
+    cases scheme <;> exact hl _
+  have ht : ∀ (x : List Nat), (x ++ Gen.tmpSuffix).reverse.take 2 = Gen.tmpSuffix.reverse.take 2 := by
+    intro x; simp [Gen.tmpSuffix]
+  rw [← h, tmpName, ht] at hf
+  revert hf; decide
+
+/-- the temporaries of ONE process are as distinct as the result files: same process, different result file ⇒
+different temporary -/
+theorem C19_tmp_names_injective_per_process (sep suffix a b : List Nat) (pid : Nat)
+    (h : tmpName sep suffix a pid = tmpName sep suffix b pid) : a = b := by
+  simp only [tmpName, List.append_assoc] at h
+  have h1 : a ++ (sep ++ (decDigits pid ++ suffix)) = b ++ (sep ++ (decDigits pid ++ suffix)) := h
+  exact List.append_cancel_right h1
+
+/-- TWO PROCESSES NEVER SHARE A TEMPORARY: for the same result file, different process ids give different temporary
+names (whatever the constant parts are) — two runs that use one cache directory at the same time write their own
+temporaries even for the same key -/
+theorem C19_tmp_names_differ_across_processes (sep suffix f : List Nat) (p1 p2 : Nat)
+    (h : tmpName sep suffix f p1 = tmpName sep suffix f p2) : p1 = p2 := by
+  simp only [tmpName, List.append_assoc] at h
+  have h1 := List.append_cancel_left (List.append_cancel_left h)
+  exact decDigits_injective (List.append_cancel_right h1)
+
+/-- TEMPORARY NAMES ARE PATH-SAFE under the shipped naming: no path separator, no NUL byte -/
+theorem C19_tmp_names_path_safe (str repr : κ → List Nat) (hbytes : ∀ k, ∀ b ∈ repr k, b < 256) (k : κ) (pid : Nat) :
+    pathSafe (tmpName Gen.tmpSep Gen.tmpSuffix (defaultName Gen.nameScheme str repr k) pid) = true := by
+  obtain ⟨h47, h92, h0⟩ := C19_default_names_path_safe str repr hbytes k
+  have hd : ∀ b ∈ decDigits pid, b ≠ 47 ∧ b ≠ 92 ∧ b ≠ 0 := decDigits_safe pid
+  simp only [pathSafe, tmpName, List.all_append, Bool.and_eq_true, List.all_eq_true, bne_iff_ne, ne_eq]
+  refine ⟨⟨⟨?_, ?_⟩, ?_⟩, ?_⟩
+  · intro b hb
+    exact ⟨⟨fun e => h47 (e ▸ hb), fun e => h92 (e ▸ hb)⟩, fun e => h0 (e ▸ hb)⟩
+  · intro b hb; revert b; decide
+  · intro b hb; exact ⟨⟨(hd b hb).1, (hd b hb).2.1⟩, (hd b hb).2.2⟩
+  · intro b hb; revert b; decide
+
 /-- TRANSPARENT WITHOUT A NAMING HYPOTHESIS: `parallelise` as shipped (default names, key check) on an empty
 cache directory either refuses the cache (repeated keys) or returns exactly what the uncached run returns, and
 the rerun recomputes nothing — for EVERY input list. -/
